@@ -163,9 +163,28 @@ def run_case(args):
             return run_history(kind.split(":")[1], rng, res)
         else:
             params = gen_params(rng)
+            if rng.random() < 0.4:
+                # the same generator object first serves one or two other parameter sets (half of them larger name
+                # lists under the same `uniform` flag: whatever it keeps between calls is then visibly stale)
+                prior = []
+                for _ in range(rng.randint(1, 2)):
+                    q = gen_params(rng)
+                    if rng.random() < 0.5:
+                        q["uniform"] = params["uniform"]
+                        q["num_services"] = min(9, params["num_services"] + rng.randint(1, 3))
+                        q["num_processes"] = min(9, params["num_processes"] + rng.randint(0, 2))
+                        q["num_exploits"] = None; q["num_privescs"] = None
+                        if isinstance(q["exploit_probs"], list):
+                            q["exploit_probs"] = None
+                    prior.append(q)
+                res["prior"] = prior
         res["params"] = {k: v for k, v in params.items()}
         replay = dict(kind="gen", params=res["params"])
-        w = run_worker(params, 0, record=True, trajectory=40 if tier == "quick" else 150)
+        wparams = dict(params)
+        if res.get("prior"):
+            wparams["_prior"] = res["prior"]
+            replay["same_generator_object_first_served"] = res["prior"]
+        w = run_worker(wparams, 0, record=True, trajectory=40 if tier == "quick" else 150)
         if not w["ok"]:
             what = (f"the generator does not return for a documented-valid parameter set: "
                     f"{w.get('error')} {w.get('message', '')[:120]}")
@@ -216,7 +235,7 @@ def run_case(args):
         fps = {("0", True): (w["fingerprint"], w.get("trajectory"))}
         for hs, rec in ([("1", True), ("random", False)] if tier == "quick" else
                         [("1", True), ("2", True), ("random", False), ("random", True)]):
-            w2 = run_worker(params, hs, record=rec, trajectory=40 if tier == "quick" else 150)
+            w2 = run_worker(wparams, hs, record=rec, trajectory=40 if tier == "quick" else 150)
             res["hashseeds"] += 1
             if not w2["ok"]:
                 res["findings"].append(dict(property="C14", kind="failing-input",
